@@ -1076,6 +1076,13 @@ def iter_next(ex, r):
             inner.fields[2] -= 1
             return some(s_.chars[inner.fields[2]])
         raise Unsupported('rev of ' + inner.name)
+    if n == 'Filter':
+        while True:
+            o = iter_next(ex, Ref(Cell(it.fields[0])))
+            if o.variant == 0:
+                return o
+            if ex.branch(ex.call_value(it.fields[1], [Ref(Cell(o.fields[0]))])):
+                return o
     if n == 'Zip':
         a = iter_next(ex, Ref(Cell(it.fields[0])))
         if a.variant == 0:
@@ -1128,6 +1135,10 @@ def iter_enumerate(ex, it): return Adt('Enumerate', 0, [it, 0])
 
 @nat('<* as Iterator>::map', '<Iter as Iterator>::map', '<SplitWhitespace as Iterator>::map', '<IntoIter as Iterator>::map', '<Chars as Iterator>::map')
 def iter_map(ex, it, f): return Adt('MapAdapter', 0, [it, f])
+
+
+@nat('<* as Iterator>::filter', '<Iter as Iterator>::filter', '<IntoIter as Iterator>::filter', '<Chars as Iterator>::filter')
+def iter_filter(ex, it, f): return Adt('Filter', 0, [it, f])
 
 
 @nat('<* as Iterator>::zip', '<Split as Iterator>::zip', '<Iter as Iterator>::zip', '<Chars as Iterator>::zip')
